@@ -307,6 +307,18 @@ CHECK_OPEN = dict(region='check_open', file='cmdline/check.c', scope='static int
                   epilogue='\tfell = 1;\n\t}\n\tif (!fell) *skipped = 1;\n\tgoto out;\nbail:\n\t*bailed = 1;\nout:\n\t*failed_count_p = failed_count; *error_p = error; *unrecoverable_p = unrecoverable_error; *recovered_p = recovered_error;\n\t(void)esc_buffer;')
 
 
+CHECK_GATE = dict(region='check_gate', file='cmdline/check.c', scope='int state_check(struct snapraid_state* state, int fix, block_off_t blockstart, block_off_t blockcount)',
+                  begin='error = 0;', end='/* try to close only if opened */', end_first_after=True, max_lines=20, expect_loops=0,
+                  proto='static void region_check_gate(struct snapraid_state *state, int fix, struct snapraid_parity_handle **parity_ptr, block_off_t blockstart, block_off_t blockmax, unsigned *error_p)',
+                  prologue='\tint ret;\n\tunsigned error = *error_p;', epilogue='\t*error_p = error;')
+
+
+def checkgate_obs():
+    return [Ob('check.process_gate.region', 'harness/h_checkgate.c', 'h_check_gate', inject=[CHECK_GATE], unwind=4, small_path=True, timeout=600, mem=6, cost=2,
+               functions=['state_check: region deciding whether state_check_process runs (cmdline/check.c, extracted mechanically)'],
+               note='every start position and parity size (32 bit), check and fix, the step failing or not')]
+
+
 def filepost_obs():
     return [Ob('check.open.region', 'harness/h_filepost.c', 'h_check_open', inject=[FILE_POST, CHECK_OPEN], defs={'VERIF_OPEN_REGION': None}, unwind=4, small_path=True, timeout=900, mem=8, cost=6, kind='bounded', bound='one disk slot',
                functions=['state_check_process: region "if the file is closed or different than the current one" .. "read from the file" (cmdline/check.c, extracted mechanically)', 'handle_close (cmdline/handle.c, real)'],
@@ -320,6 +332,13 @@ REPAIR_OUTCOME = dict(region='repair_outcome', file='cmdline/check.c', begin='/*
                       proto='static void region_repair_outcome(struct snapraid_state *state, int rehash, block_off_t i, unsigned diskmax, struct failed_struct *failed, unsigned *failed_map, unsigned failed_count, void **buffer, void **buffer_recov, void *buffer_zero, int used_parity, int valid_parity, unsigned *error_p, unsigned *unrecoverable_p)',
                       prologue='\tunsigned j, l;\n\tint ret;\n\tchar esc_buffer[ESC_MAX];\n\tunsigned error = *error_p, unrecoverable_error = *unrecoverable_p;',
                       epilogue='\t} /* closes the else branch the region text opened */\n\t*error_p = error; *unrecoverable_p = unrecoverable_error;\n\t(void)esc_buffer;')
+
+
+PARITY_OFFER = dict(region='parity_offer', file='cmdline/check.c', scope='static int state_check_process(struct snapraid_state* state, int fix, struct snapraid_parity_handle** parity, block_off_t blockstart, block_off_t blockmax)',
+                    begin='/* now read and check the parity if requested */', end='/* try all the recovering strategies */', end_first_after=True, max_lines=45, brace_balance=1,
+                    proto='static void region_parity_offer(struct snapraid_state *state, struct snapraid_parity_handle **parity, block_off_t i, unsigned diskmax, unsigned buffermax, void **buffer, void **buffer_recov, void **out_recov, void **out_zero, unsigned *error_p)',
+                    prologue='\tunsigned l;\n\tint ret;\n\tunsigned error = *error_p;',
+                    epilogue='\tfor (l = 0; l < LEV_MAX; ++l) out_recov[l] = buffer_recov[l];\n\t*out_zero = buffer_zero;\n\t} /* closes the block the region text opened */\n\t*error_p = error;\n\t(void)ret;')
 
 
 DATA_VERIFY = dict(region='data_verify', file='cmdline/check.c', scope='static int state_check_process(struct snapraid_state* state, int fix, struct snapraid_parity_handle** parity, block_off_t blockstart, block_off_t blockmax)',
@@ -361,17 +380,20 @@ CHECK_BIE = dict(region='check_block_is_enabled', file='cmdline/check.c', begin=
 
 
 def writeback_obs():
-    return [Ob('check.block_is_enabled', 'harness/h_writeback.c', 'h_check_block_is_enabled', inject=[WRITEBACK, REPAIR_OUTCOME, DATA_VERIFY, CHECK_BIE], unwind=8, small_path=True, timeout=900, mem=8, cost=4, replay=False, kind='bounded', bound='3 disk slots',
+    return [Ob('check.block_is_enabled', 'harness/h_writeback.c', 'h_check_block_is_enabled', inject=[WRITEBACK, REPAIR_OUTCOME, DATA_VERIFY, CHECK_BIE, PARITY_OFFER], unwind=8, small_path=True, timeout=900, mem=8, cost=4, replay=False, kind='bounded', bound='3 disk slots',
                functions=['block_is_enabled (cmdline/check.c; whole body extracted mechanically, callees routed to stubs)'],
                note='-e on blocks / files-with-errors filter / plain, 1..6 parity levels each excluded or not, per disk slot: present or not, every block state, file excluded or not; stripe bad or not'),
-            Ob('check.data_verify.region', 'harness/h_writeback.c', 'h_data_verify', inject=[WRITEBACK, REPAIR_OUTCOME, DATA_VERIFY, CHECK_BIE], unwind=18, small_path=True, timeout=1200, mem=8, cost=6, replay=False,
+            Ob('check.data_verify.region', 'harness/h_writeback.c', 'h_data_verify', inject=[WRITEBACK, REPAIR_OUTCOME, DATA_VERIFY, CHECK_BIE, PARITY_OFFER], unwind=18, small_path=True, timeout=1200, mem=8, cost=6, replay=False,
                functions=['state_check_process: region "read from the file" .. "now read and check the parity" (cmdline/check.c, extracted mechanically)'],
                note='every read outcome, block state BLK / CHG / REP, digest and recorded hash (hash size 16), migration flag, disk slot, fill of the failed set; handle_read / memhash by stub'),
-            Ob('check.repair_outcome.region', 'harness/h_writeback.c', 'h_repair_outcome', inject=[WRITEBACK, REPAIR_OUTCOME, DATA_VERIFY, CHECK_BIE], unwind=12, small_path=True, timeout=1200, mem=8, cost=8, replay=False, kind='bounded',
+            Ob('check.repair_outcome.region', 'harness/h_writeback.c', 'h_repair_outcome', inject=[WRITEBACK, REPAIR_OUTCOME, DATA_VERIFY, CHECK_BIE, PARITY_OFFER], unwind=12, small_path=True, timeout=1200, mem=8, cost=8, replay=False, kind='bounded',
                bound='at most 3 failed entries per stripe, 1..6 parity levels, block size 8',
                functions=['state_check_process: region "try all the recovering strategies" .. "now write recovered files" (cmdline/check.c, extracted mechanically)'],
                note='every result of repair, bad / out-of-date pattern, recomputed and on-disk parity content, readable levels, used / valid parity; repair by stub (its own units)'),
-            Ob('check.writeback.region', 'harness/h_writeback.c', 'h_writeback', inject=[WRITEBACK, REPAIR_OUTCOME, DATA_VERIFY, CHECK_BIE], unwind=12, small_path=True, timeout=1200, mem=8, cost=10, replay=False, kind='bounded',
+            Ob('check.parity_offer.region', 'harness/h_writeback.c', 'h_parity_offer', inject=[WRITEBACK, REPAIR_OUTCOME, DATA_VERIFY, CHECK_BIE, PARITY_OFFER], unwind=16, small_path=True, timeout=900, mem=8, cost=4, replay=False,
+               functions=['state_check_process: region "now read and check the parity" .. "try all the recovering strategies" (cmdline/check.c, extracted mechanically)'],
+               note='1..6 levels, each open or not, each read failing or not, each pointer left by an earlier stripe zero or not; parity_read by recording stub'),
+            Ob('check.writeback.region', 'harness/h_writeback.c', 'h_writeback', inject=[WRITEBACK, REPAIR_OUTCOME, DATA_VERIFY, CHECK_BIE, PARITY_OFFER], unwind=12, small_path=True, timeout=1200, mem=8, cost=10, replay=False, kind='bounded',
                bound='at most 3 failed entries per stripe, 1..6 parity levels',
                functions=['state_check_process: region "now write recovered files" (cmdline/check.c, extracted mechanically)'],
                note='check and fix, every bad / out-of-date / excluded / unsynced combination per entry, every disk slot and file position, every write outcome, every readability / accessibility / exclusion per parity level; handle_write / parity_write by recording stub')]
@@ -1221,7 +1243,7 @@ def c04(tier, seed):
 def c01(tier, seed):
     c03 = [o for o in PROPS['C03']['obligations'](tier, seed) if o.name.startswith(('rec.', 'mds.'))]
     # check.repair_step takes ~10 minutes: in the quick tier it runs under C05 only
-    fixside = writeback_obs() + filepost_obs() + links_obs() + [o for o in openmode_obs() if o.name in ('handle.read', 'handle.write', 'handle.utime', 'handle.create')]
+    fixside = checkgate_obs() + writeback_obs() + filepost_obs() + links_obs() + [o for o in openmode_obs() if o.name in ('handle.read', 'handle.write', 'handle.utime', 'handle.create')]
     return c03 + [o for o in check_obs(tier) if tier == 'thorough' or o.name != 'check.repair_step'] + elem_obs(tier) + fixside
 
 
